@@ -419,17 +419,29 @@ def run(ctx):
         n_ = 0
         for c in [i for i in xf.insts() if i.op == 'call' and i.callee in P.fns and reaches_icp(i.callee)]:
             for ai, arg in enumerate(c.ops):
-                d = xf.defs.get(strip_ptr_casts(xf, arg)) if isinstance(arg, str) else None
-                if d is not None and d.op == 'call' and d.callee in ('@get_missing_parity', '@get_missing_data'):
-                    n_ += 1
-                    src = strip_ptr_casts(xf, d.ops[1])
-                    inst = f'{c.callee} at line {c.line}: argument {ai} = {d.callee[1:]}(merged list)'
-                    if src in MA:
-                        r.ok(inst, func=xf.name, loc=c.loc)
-                    else:
-                        r.fail(inst, func=xf.name, sig=f'{d.callee[1:]} of {Canon(P, xf).val(src)[:40]} given to {c.callee}', loc=d.loc,
-                               msg=f'{c.callee} receives {d.callee[1:]}({Canon(P, xf).val(src)}), not of the merged list: excluded fragments are unknown to the solver, '
-                                   'which may then select an excluded parity')
+                # the list may reach the solver through a merge with NULL ("no parity is unavailable")
+                leaves_, st_, seen_ = [], [strip_ptr_casts(xf, arg)] if isinstance(arg, str) else [], set()
+                while st_:
+                    v_ = st_.pop()
+                    if v_ in seen_:
+                        continue
+                    seen_.add(v_)
+                    d_ = xf.defs.get(v_)
+                    if d_ is not None and d_.op in ('phi', 'select'):
+                        st_ += [strip_ptr_casts(xf, x_) for x_ in ([x for x, _ in d_.incoming] if d_.op == 'phi' else d_.ops[1:]) if x_ not in ('null', 'undef')]
+                    elif d_ is not None:
+                        leaves_.append(d_)
+                for d in leaves_:
+                    if d is not None and d.op == 'call' and d.callee in ('@get_missing_parity', '@get_missing_data'):
+                        n_ += 1
+                        src = strip_ptr_casts(xf, d.ops[1])
+                        inst = f'{c.callee} at line {c.line}: argument {ai} = {d.callee[1:]}(merged list)'
+                        if src in MA:
+                            r.ok(inst, func=xf.name, loc=c.loc)
+                        else:
+                            r.fail(inst, func=xf.name, sig=f'{d.callee[1:]} of {Canon(P, xf).val(src)[:40]} given to {c.callee}', loc=d.loc,
+                                   msg=f'{c.callee} receives {d.callee[1:]}({Canon(P, xf).val(src)}), not of the merged list: excluded fragments are unknown to the solver, '
+                                       'which may then select an excluded parity')
     r.require_min(4)
 
     # ---------------- R06h two-data planner: the element handed on is the one that was NOT planned
